@@ -652,13 +652,13 @@ def r17_select(text, count=1):
         ob = mm.end() - 1
         cb = match_close(m, ob)
         biased, arms, else_code = _split_select_arms(text[ob + 1:cb])
-        if len(arms) != 2 or not re.match(r"\w+\.recv\(\)$", arms[0]["fut"]) or arms[0]["cond"]:
+        if len(arms) != 2 or arms[0]["cond"]:
             raise Undecided("R17-select: unsupported shape (%d arms)" % len(arms))
         c1 = arms[1]["cond"] or "true"
         f1 = arms[1]["fut"]
-        repl = ("match vx_select2(%s, Tracked(tr)) {\n 0 => { match %s.vx_await(Tracked(tr)) { %s => %s, _ => { vx_branch_disabled(); } } }\n"
+        repl = ("match vx_select2(%s, Tracked(tr)) {\n 0 => { match (%s).vx_await(Tracked(tr)) { %s => %s, #[allow(unreachable_patterns)] _ => { vx_never() } } }\n"
                 " 1 => { let %s = (%s).vx_await(Tracked(tr)); %s }\n _ => %s\n}") % (
-                    c1, arms[0]["fut"], arms[0]["pat"], arms[0]["code"], arms[1]["pat"], f1, arms[1]["code"], else_code or "{ vx_branch_disabled(); }")
+                    c1, arms[0]["fut"], arms[0]["pat"], arms[0]["code"], arms[1]["pat"], f1, arms[1]["code"], else_code or "{ vx_never() }")
         text = text[:mm.start()] + repl + text[cb + 1:]
         k += 1
     if (count is None and k == 0) or (count is not None and count >= 0 and k != count):
